@@ -121,7 +121,7 @@ def setup_all():
 # ---------------------------------------------------------------- proof stage
 
 # further statement files that belong to a property (built, listed and checked together with Props/<prop>.v)
-EXTRA_PROPS = {"C18": ["C18Float"], "C12": ["C12Atomic"], "C17": ["C17SkipList", "C17Hash"], "C20": ["C20Startup"]}
+EXTRA_PROPS = {"C18": ["C18Float"], "C12": ["C12Atomic"], "C17": ["C17SkipList", "C17Hash"], "C20": ["C20Startup"], "C14": ["C14Heap"]}
 
 
 def props_files(prop):
@@ -377,11 +377,8 @@ def standard_build(res, need_go=True, need_ocaml=True):
             axs = " ".join(m.group(1).split()) if m else "?"
             # axioms of the standard library (brought in by Flocq / Reals for the IEEE bridge of C18) are listed and allowed; nothing else
             axlist = [a for a in re.findall(r"[A-Za-z_][\w\.']*", axs) if a not in ("none",)] if axs not in ("<none>", "?") else []
-            foreign = [a for a in axlist if a not in ALLOWED_AXIOMS and a.split(".")[-1] not in ALLOWED_AXIOMS and not a.startswith("Coq.") ]
-            if axlist and not foreign and all((a.split(".")[-1] in ALLOWED_AXIOMS or a in ALLOWED_AXIOMS) for a in axlist):
-                axs_ok = True
-            else:
-                axs_ok = axs == "<none>"
+            allowed_last = {x.split(".")[-1] for x in ALLOWED_AXIOMS}
+            axs_ok = (axs == "<none>") or (bool(axlist) and all(a.split(".")[-1] in allowed_last for a in axlist))
             res.proof["coqchk"] = {"rc": rc, "axioms": axs,
                                    "no_type_in_type": "type-in-type: <none>" in out, "no_unsafe_fixpoints": "unsafe (co)fixpoints: <none>" in out, "no_assumed_positivity": "positivity is assumed: <none>" in out}
             res.proof["checker_cmd"] += " + coqchk -silent -o -Q coq SDB SDB.Props.%s" % res.prop
